@@ -188,6 +188,12 @@ def hostile(rng, S):
             ('dual:2', ((neg(op(P, A)),), op(N, neg(A)))),
             ('nec-lem', ((), op(N, op('Disjunction', A, neg(A))))),
             ('refl-trans', ((op(N, op(N, A)), op(P, op(P, neg(A)))), B)),
+            # sibling leaf worlds that lack a successor at the same moment, with obligations that contradict each other:
+            # satisfiable only if each gets a successor of its own
+            ('sibling-boxes', ((op(P, op(N, A)), op(P, op(N, neg(A)))), B)),
+            ('sibling-boxes:conj', ((op('Conjunction', op(P, op(N, A)), op(P, op(N, neg(A)))),), B)),
+            ('sibling-boxes:3', ((op(P, op('Conjunction', op(N, A), C)), op(P, op('Conjunction', op(N, neg(A)), B)), op(P, op(N, op('Conjunction', A, B)))), op(N, C))),
+            ('sibling-boxes:deep', ((op(N, op(P, op(N, A))), op(P, op(P, op(N, neg(A))))), B)),
             ('several-leafworlds', ((op(P, A), op(P, B), op(P, C), op(N, op('Disjunction', A, op('Disjunction', B, C)))), op(N, A))),
         ]
         # proofs that run up to the projected world limit: a necessarily-possibly multiplier, k extra possibility
